@@ -23,7 +23,7 @@ from hypothesis import HealthCheck, Phase, given, settings
 from hypothesis import strategies as st
 
 from . import env
-from .case import Case, HypCase, Outcome, Reject, ReplayCase, StaleReplay
+from .case import Case, HypCase, Outcome, Reject, ReplayCase, StaleReplay, UniformCase
 
 SHRINK_CAP = {"quick": 250, "thorough": 1500}
 MAX_ROUNDS = 5
@@ -225,7 +225,14 @@ def run_shard(test, shard, n, tier, seed, known, excluded_init=()):
     failures = []
     excluded = set(excluded_init)
     harness = [None]
-    for rnd in range(MAX_ROUNDS):
+    # two generation modes per shard: every choice drawn through Hypothesis (fully shrinkable), and every choice taken from a uniform
+    # stream keyed by one Hypothesis-drawn integer (Hypothesis shrinks the key; the smallest failing choice sequence seen is saved).
+    # The saved replay is the choice sequence itself in both modes.
+    plan = [("hyp", n - n // 2, rnd) for rnd in range(MAX_ROUNDS)] + [("uni", n // 2, rnd) for rnd in range(MAX_ROUNDS)]
+    skip_mode = None
+    for mode, n_mode, rnd in plan:
+        if n_mode <= 0 or mode == skip_mode or harness[0] is not None:
+            continue
         state = {"first": None, "best": None, "calls": 0}
 
         def body(data):
@@ -233,7 +240,7 @@ def run_shard(test, shard, n, tier, seed, known, excluded_init=()):
                 return
             if state["first"] is not None and state["calls"] > SHRINK_CAP[tier]:
                 return
-            case = HypCase(data)
+            case = UniformCase(data.draw(st.integers(0, 2 ** 62))) if mode == "uni" else HypCase(data)
             try:
                 out = run_body(test, case)
             except Reject:
@@ -274,9 +281,9 @@ def run_shard(test, shard, n, tier, seed, known, excluded_init=()):
                 })
             raise CaseFailure(out.bucket)
 
-        hseed = env.mix64(seed, env.strhash(test.name), shard, rnd) & 0x7FFFFFFF
+        hseed = env.mix64(seed, env.strhash(test.name), shard, rnd, 0 if mode == "hyp" else 0x756E69) & 0x7FFFFFFF
         runner = settings(
-            max_examples=n, database=None, deadline=None, derandomize=False, report_multiple_bugs=False,
+            max_examples=n_mode, database=None, deadline=None, derandomize=False, report_multiple_bugs=False,
             suppress_health_check=list(HealthCheck), phases=(Phase.generate, Phase.shrink), print_blob=False,
         )(hypothesis.seed(hseed)(given(st.data())(body)))
         try:
@@ -295,7 +302,8 @@ def run_shard(test, shard, n, tier, seed, known, excluded_init=()):
         if harness[0] is not None:
             break
         if state["best"] is None:
-            break
+            skip_mode = mode  # this mode found nothing (more): no further rounds for it
+            continue
         failures.append(state["best"][1])
         excluded.add(state["first"])
     return stats, failures, harness[0]
